@@ -341,8 +341,20 @@ def check_helper(rep, repo, helper, N, r1='C16.R1', r3='C16.R3', r6='C16.R6'):
             sv = sentinel_of(g, b)
             if sv is not None and comp[2] == b:
                 X, sent = dom, sv
+    if X is None and comp[0] == 'call' and comp[1] == S('filter') and len(comp[2]) == 2 and comp[2][0] == NONE:
+        # filter(None, slots): keeps the truthy slots - the non-sentinel ones when the sentinel is falsy (None, 0) and what is
+        # stored is a (criterion, extras) tuple, which is always truthy
+        arr = comp[2][1]
+        base = arr[1] if arr[0] == 'accum' else arr
+        dflt = None
+        if base[0] == 'bin' and base[1] == 'Mult':
+            for lst in (base[2], base[3]):
+                if lst[0] == 'list' and len(lst[1]) == 1:
+                    dflt = lst[1][0]
+        if dflt in (NONE, C(0), C(False)) and arr[0] == 'accum' and all(v_[0] == 'tuple' and len(v_[1]) == 2 for _, _, v_, _ in arr[2]):
+            X, sent = arr, dflt
     dict_mode = False
-    if X is None and comp[0] == 'comp' and len(comp[1]) == 1 and comp[1][0][1] == TRUE:
+    if X is None and comp[0] == 'comp' and len(comp[1]) == 1 and comp[1][0][1] == TRUE and comp[1][0][0][3][0] == 'call' and comp[1][0][0][3][1] == S('sorted'):
         # alternative schema: a dict keyed by position, read back in sorted key order
         b, g = comp[1][0]
         dom = b[3]
@@ -352,9 +364,24 @@ def check_helper(rep, repo, helper, N, r1='C16.R1', r3='C16.R3', r6='C16.R6'):
                 D = D[1][1]
             if D[0] == 'accum' and D[1] == ('dict', ()) and comp[2] == I(D, b):
                 X, sent, dict_mode = D, NONE, True
+    if X is None and comp[0] == 'comp' and len(comp[1]) == 1:
+        # a dict keyed by position read back over range(1, HI): every position 1..N must be visited
+        b, g = comp[1][0]
+        dom = b[3]
+        D = comp[2][1] if (comp[2][0] == 'idx' and comp[2][2] == b) else None
+        if D is not None and D[0] == 'accum' and D[1] == ('dict', ()) and dom[0] == 'call' and dom[1] == S('range') and len(dom[2]) == 2 and dom[2][0] == C(1):
+            hi = dom[2][1]
+            full = hi in (C(N + 1), BIN('Add', CALL(S('len'), [S(helper.params[-1])]), C(1)), BIN('Add', C(1), CALL(S('len'), [S(helper.params[-1])])))
+            if full:
+                X, sent, dict_mode = D, NONE, True
+            else:
+                rep.fail(r1, where, 'compaction visits every position 1..%d' % N, got='positions are read back over range(1, %s): a criterion whose position lies beyond that is dropped' % show(hi)[:80],
+                         want='range(1, len(opts) + 1)', construct='compaction range %s' % show(hi)[:60])
+                return
     if X is None:
-        rep.fail(r1, where, 'compaction visits the slots in ascending index order and keeps the non-sentinel ones',
-                 got=show(kept)[:240], want='[slot for slot in slots if slot is not the sentinel]', construct='compaction form')
+        # (an unrecognised way of compacting is not by itself a wrong one)
+        rep.inconclusive(r1, where, 'the compaction of the slots is in a recognised form ([slot for slot in slots if slot is not the sentinel], filter(None, slots), sorted dict)',
+                         got=show(kept)[:240])
         return
     if dict_mode:
         rep.ok(r1, where, 'criteria are stored in a dict keyed by position and read back in sorted key order', got='sorted(dict)')
